@@ -1984,7 +1984,7 @@ func main() {
 	rng := hx.NewRng(a.Seed)
 	slots := []uint64{7, 8, 9}
 	pick := func(xs []uint64) uint64 { return xs[rng.Intn(len(xs))] }
-	for run.NOps < a.N {
+	for run.NOps < a.N && !run.Enough() {
 		exec("new")
 		var pool []entry // entries used so far in this episode
 		var keys [][]string
